@@ -288,7 +288,7 @@ func init() {
 	Register(&Check{
 		ID:    "C09",
 		Level: "exploration",
-		Rule: "(1) four base configurations of 7-10 atoms (service attributes incl. ordered calls/tags; meta + parameters; services + fields + decorators + version; null-valued parameters, arguments and fields + a todo service carrying left-over arguments and calls) x every assignment of the atoms to 3 files that respects the order of appended atoms: -o bytes equal the single-file form; (2) 23 overriding pairs (incl. later mappings that are larger than everything merged before, and a user function named like a built-in) (decoy in an earlier file, real value later; empty arguments do not replace) x 3 file placements; (3) file naming / pattern assignment: explicit paths in both orders, one glob, two globs, a directory glob whose lexical path order differs from directory order, uncleaned patterns; " +
+		Rule: "(1) four base configurations of 7-10 atoms (service attributes incl. ordered calls/tags; meta + parameters; services + fields + decorators + version; null-valued parameters, arguments and fields + a todo service carrying left-over arguments and calls) x every assignment of the atoms to 3 files that respects the order of appended atoms: -o bytes equal the single-file form; (2) 23 overriding pairs (incl. later mappings that are larger than everything merged before, and a user function named like a built-in) (decoy in an earlier file, real value later; empty arguments do not replace) x 5 file placements (incl. an unrelated or an empty file after the overriding one); (3) file naming / pattern assignment: explicit paths in both orders, one glob, two globs, a directory glob whose lexical path order differs from directory order, uncleaned patterns; " +
 			"(5) nine spellings of an empty file (zero bytes, blank lines, comment only, bare document markers, {}, ~) at every position of a three-file configuration; (4) algebra on the real input.Merge: associativity for all triples and identity for all elements of a universe of 497 inputs (each attribute absent / v1 / v2, two attributes at a time; thorough: all triples, quick: all triples over the single-attribute elements). non-trivial = more than one file involved; distinct = distinct split / pair / triple",
 		Assumptions: []string{"the single-file equivalent is built from the abstract atoms (never by merging YAML); merged Input values are compared structurally, not distinguishing nil from empty collections"},
 		BudgetQuick: 280 * time.Second, BudgetThorough: 1500 * time.Second,
@@ -408,7 +408,7 @@ func init() {
 			}
 			// (2) overrides
 			for _, ov := range c09overrides() {
-				for place := 0; place < 3; place++ {
+				for place := 0; place < 5; place++ {
 					ov, place := ov, place
 					id := fmt.Sprintf("override/%s/place%d", ov.id, place)
 					w.Case(id, func(c *C) {
@@ -418,7 +418,7 @@ func init() {
 							one = c09overrideContext()
 							ov.decoy(one)
 						}
-						if place == 1 {
+						if place == 1 || place == 3 {
 							one.Params = append(one.Params, Param{"unrelated", 1})
 						}
 						want := w.Build([]File{{"c.yaml", one.YAML()}})
@@ -431,6 +431,12 @@ func init() {
 							files = []File{{"00.yaml", c09overrideContext().YAML()}, {"01.yaml", d.YAML()}, {"02.yaml", r.YAML()}}
 						case 1:
 							files = []File{{"00.yaml", c09overrideContext().YAML()}, {"01.yaml", d.YAML()}, {"02.yaml", mid.YAML()}, {"03.yaml", r.YAML()}}
+						case 3:
+							// what the later file says stays said when an unrelated file follows it
+							files = []File{{"00.yaml", c09overrideContext().YAML()}, {"01.yaml", d.YAML()}, {"02.yaml", r.YAML()}, {"03.yaml", mid.YAML()}}
+						case 4:
+							// ... or an empty one
+							files = []File{{"00.yaml", c09overrideContext().YAML()}, {"01.yaml", d.YAML()}, {"02.yaml", r.YAML()}, {"03.yaml", "# nothing\n"}, {"04.yaml", ""}}
 						case 2:
 							// decoy before the context (the context's own values are then overridden as well where they collide)
 							files = []File{{"00.yaml", d.YAML()}, {"01.yaml", c09overrideContext().YAML()}, {"02.yaml", r.YAML()}}
